@@ -830,7 +830,7 @@ func parseSpecFile(path, text, pkg string, trusted bool) (*SpecFile, error) {
 				return nil, fmt.Errorf("%s: %v", loc, err)
 			}
 			key := strings.TrimSpace(rest[:i])
-			if pkg != "" && !strings.Contains(key, "/") {
+			if pkg != "" && !strings.Contains(key, "/") && strings.Count(key, ".") <= 1 {
 				key = pkg + "." + key
 			}
 			sf.ChanInvs = append(sf.ChanInvs, &ChanInv{Key: key, Var: strings.TrimSpace(rest[i+1 : j]), Text: body, Expr: e, Props: append(append([]string(nil), fileProps...), cprops...), Pkg: pkg})
